@@ -4,7 +4,7 @@
    (decided by wf_panelb); wf_nested adds as many pairwise distinct column names as variables. *)
 From Coq Require Import ZArith List Bool Permutation Sorted.
 Require Import SkV.Lib.Base SkV.C15.Model SkV.C15.Lemmas SkV.C15.Proofs SkV.C15.Long SkV.C15.Paths
-  SkV.C15.Main SkV.C15.Layout SkV.C15.Prims SkV.C15.Gen SkV.C15.Bridge SkV.C15.BridgeAll.
+  SkV.C15.Main SkV.C15.Layout SkV.C15.Labels SkV.C15.Prims SkV.C15.Gen SkV.C15.Bridge SkV.C15.BridgeAll.
 Import ListNotations.
 Open Scope Z_scope.
 
@@ -194,7 +194,8 @@ Theorem C15_check_X_coercions : forall V n c T (X : panel V) (x : nested V),
   check_X true false (RN x) = Ok (RA (n_rows x)) /\
   (forall a, check_X a false (RA X) = Ok (RA X)) /\
   (forall b, check_X false b (RN x) = Ok (RN x)) /\
-  (forall r : rep V, match r with RN _ | RA _ => True | _ => forall a b, check_X a b r = Err end).
+  (forall r : rep V, match r with RN _ | RA _ | RNI _ _ => True
+                                 | _ => forall a b, check_X a b r = Err end).
 Proof. exact @main_check_X. Qed.
 Print Assumptions C15_check_X_coercions.
 
@@ -235,6 +236,23 @@ Theorem C15_table_layout : forall V n c T (p : panel V) (d : V),
   nth (j * T + t) (nth i (a3_to_2d p) []) d = at3 p d i j t.
 Proof. exact @tab_layout. Qed.
 Print Assumptions C15_table_layout.
+
+(* instance labels: a nested frame whose rows carry ANY distinct labels idx (RNI idx x: shuffled /
+   split panels, arbitrary ints, strings through an order-preserving code) keeps the POSITIONAL
+   order of its instances through the multi-index frame, the 3-D array and the 2-D table; the
+   multi-index frame carries the labels in instance order; through the long table the order is
+   kept when the labels are increasing (for other labels see Refuted.v: open finding F-C15-4) *)
+Theorem C15_instance_labels_keep_position : forall V n c T (x : nested V) idx k,
+  wf_nested n c T x -> NoDup idx -> length idx = n ->
+  run_path [E_N_M; E_M_N k] (RNI idx x) = Ok (RN (mkN k (n_cols x) (n_rows x))) /\
+  run_path [E_N_M; E_M_A] (RNI idx x) = Ok (RA (n_rows x)) /\
+  run_path [E_N_A] (RNI idx x) = Ok (RA (n_rows x)) /\
+  run_path [E_N_T] (RNI idx x) = Ok (RT (nested_to_2d x)) /\
+  map r_inst (m_rows (nested_to_mi_idx idx x)) = flat_map (fun i => repeat i T) idx /\
+  (StronglySorted Z.lt idx ->
+   forall cn, run_path [E_N_L; E_L_N cn] (RNI idx x) = run_path [E_N_L; E_L_N cn] (RN x)).
+Proof. exact @labels_keep_position. Qed.
+Print Assumptions C15_instance_labels_keep_position.
 
 (* the tie: the conversion functions as REGENERATED from sktime/utils/data_processing.py by
    translator/panel_c15.py (gen_*, build/coq/C15/Gen.v) return, on the containers of the property,
